@@ -127,10 +127,10 @@ def run(tier):
     g = qgen.Gen(rng)
     lays = qgen.layouts(rng)
     ref = []                    # (stmt, layout index, harness input)
-    n_ref = 160 if quick else 2500
+    n_ref = 400 if quick else 2500
     for i in range(n_ref):
         st = g.statement(i % 5)
-        for li, L in enumerate(lays if (quick and i % 2 == 0) or not quick else lays[:1]):
+        for li, L in enumerate(lays):
             d = qgen.harness_input(st, L)
             d["want"] = qgen.written(st)
             d["want"]["qcolumns"] = [list(x) for x in d["want"]["qcolumns"]]
@@ -223,15 +223,15 @@ def run(tier):
     unknown = set()
     acc = [r for r in res if r["accepted"] and not r.get("panic") and r.get("tree") is not None and 1 < r["nodes"] <= 1500]
     rng.shuffle(acc)
-    sample = acc[:150 if quick else 2400]
+    sample = acc[:400 if quick else 2400]
     kinds = set()
     for r in sample:
         for t in r["tree"]:
             qast.tree_types(t, kinds)
     refs = [(st, d, r) for (st, li, d), r in zip(ref, res[:n_ref_in]) if li == 0 and r["accepted"]]
     refs = [(st, d, r) for st, d, r in refs if r["nodes"] <= 600 and len(r["tree"]) == 1]
-    refs = refs[:110 if quick else 1500]
-    nsh = 4 if quick else 12
+    refs = refs[:300 if quick else 1500]
+    nsh = 8 if quick else 12
     jobs, owners = [], []
     for si in range(nsh):
         sh = sample[si::nsh]
